@@ -241,14 +241,11 @@ pub fn parse_proj(definition: &str) -> Result<String, Error> {
     if definition.contains('|') | !definition.contains("proj") {
         return Ok(definition.to_string());
     }
-    // Impose some line ending sanity and remove the PROJ '+' prefix
+    // Impose some line ending sanity
     let all = definition
         .replace("\r\n", "\n")
         .replace('\r', "\n")
-        .replace(" +", " ")
-        .replace("\n+", " ")
         .trim()
-        .trim_start_matches('+')
         .to_string();
 
     // Collect the PROJ string
@@ -271,6 +268,9 @@ pub fn parse_proj(definition: &str) -> Result<String, Error> {
     // Now split the text into steps. First make sure we do not match
     //"step" as part of a word (stairSTEPping,  poSTEPileptic, STEPwise,
     // quickSTEP), by making it possible to only search for " step "
+    // Also remove the PROJ '+' prefix here, where comments are gone and all
+    // whitespace has been collapsed to single blanks
+    trimmed = (" ".to_string() + &trimmed.normalize()).replace(" +", " ");
     trimmed = " ".to_string() + &trimmed.normalize() + " ";
 
     // Remove empty steps and other non-significant whitespace
